@@ -54,6 +54,9 @@ type scenario struct {
 	Order []int  `json:"order"` // connection index per injected frame
 	Park  bool   `json:"park"`  // park the handler at the yield point while pushed data arrives
 	Kind  string `json:"kind"`
+	// Pad: frames arrive as a wire delivers them: zero-padded to the Ethernet minimum of 60 bytes, and (Pad = 2)
+	// with a four-byte trailer after the datagram; the IPv4 total length says where the datagram ends
+	Pad int `json:"pad,omitempty"`
 	// PeerIPs, when set, replaces the default peer addresses (index = conn.Peer)
 	PeerIPs []string `json:"peer_ips,omitempty"`
 }
@@ -157,6 +160,10 @@ func scenarios(tier string, seed int64) []scenario {
 		r := core.NewRng(seed, "C14", i)
 		nc := r.PickI([]int{1, 1, 1, 2, 2, 3, 4})
 		sc := scenario{Kind: fmt.Sprintf("seeded-%dconn", nc)}
+		if i%5 == 4 {
+			sc.Pad = 1 + (i/5)%2
+			sc.Kind += "-padded-frames"
+		}
 		left := []int{}
 		for j := 0; j < nc; j++ {
 			c := mkConn(r, j)
@@ -427,6 +434,14 @@ func runScenario(k int, sc scenario) scnObs {
 		}
 		s.next++
 		frame := fr.Eth(net.HardwareAddr{0, 0, 0, 0, 0, 0}, lab.PeerMAC, 0x0800, fr.IPv4{IHL: -1, TotalLen: -1, Proto: 6, Src: src, Dst: me, ID: uint16(step)}.Marshal(t.Marshal(src, me, data)))
+		if sc.Pad > 0 {
+			for len(frame) < 60 {
+				frame = append(frame, 0)
+			}
+			if sc.Pad == 2 {
+				frame = append(frame, 0xde, 0xad, 0xbe, 0xef)
+			}
+		}
 		if sc.Park && s.next == 3 {
 			// the handler must be parked between its buffer check and its wait before the pushed data arrives
 			deadline := time.Now().Add(3 * time.Second)
